@@ -69,12 +69,14 @@ Lemma compress_room2 R c n input E out_len f :
             (r_status r = TOkay -> N.of_nat (length (r_out r)) < out_len -> c_pending c = [] -> f <> TF_NONE ->
              c_total_bytes (r_comp r) = 0 /\ c_la_size (r_comp r) = 0 /\ c_finished (r_comp r) = false) /\
             (r_status r = TOkay -> 0 < out_len -> input <> [] \/ f <> TF_NONE \/ c_pending c <> [] ->
-             0 < r_in r \/ r_out r <> []).
+             0 < r_in r \/ r_out r <> []) /\
+            (r_status r = TOkay -> N.of_nat (length (r_out r)) < out_len -> c_pending c = [] ->
+             f = TF_SYNC \/ f = TF_FULL -> exists pre, r_out r = pre ++ sync_marker).
 Proof.
   intros Hsmall Hlf HGI HDz Hpre. pose proof HGI as [Hprev HG].
   unfold compress, compress_inner. rewrite Hprev. cbn [negb orb].
   destruct (negb (negb (c_flush c =? TF_FINISH) || (f =? TF_FINISH))) eqn:Ebad.
-  { eexists. split; [reflexivity|]. cbn [r_status]. split; [discriminate|]. split; [|split; discriminate].
+  { eexists. split; [reflexivity|]. cbn [r_status]. split; [discriminate|]. split; [|split; [discriminate|split; discriminate]].
     intros Hff. exfalso. apply negb_true_iff, orb_false_iff in Ebad. destruct Ebad as [B1 B2].
     apply negb_false_iff, N.eqb_eq in B1. apply N.eqb_neq in B2. exact (B2 (Hff B1)). }
   set (c0 := set_flush c f).
@@ -119,12 +121,15 @@ Proof.
                       (r_status r = TOkay -> N.of_nat (length (r_out r)) < out_len -> c_pending c = [] -> f <> TF_NONE ->
                        c_total_bytes (r_comp r) = 0 /\ c_la_size (r_comp r) = 0 /\ c_finished (r_comp r) = false) /\
                       (r_status r = TOkay -> 0 < out_len -> input <> [] \/ f <> TF_NONE \/ c_pending c <> [] ->
-                       0 < r_in r \/ r_out r <> [])).
+                       0 < r_in r \/ r_out r <> []) /\
+                      (r_status r = TOkay -> N.of_nat (length (r_out r)) < out_len -> c_pending c = [] ->
+                       f = TF_SYNC \/ f = TF_FULL -> exists pre, r_out r = pre ++ sync_marker)).
   { intros st c' cb' Hf Hcase. destruct (Hdrain st c' cb' Hf Hcase) as (r & Er & H1 & H2 & H4).
-    exists r. split; [exact Er|]. split; [|split; [intros _; exact H2|split]].
+    exists r. split; [exact Er|]. split; [|split; [intros _; exact H2|split; [|split]]].
     - intros Est Hroom. destruct (H1 Est Hroom) as [X Y]. split; [exact X|left; exact Y].
     - intros Est Hroom Hpc. destruct (H1 Est Hroom) as [_ Y]. contradiction.
-    - intros Est Hol _. right. exact (H4 Est Hol). }
+    - intros Est Hol _. right. exact (H4 Est Hol).
+    - intros Est Hroom Hpc. destruct (H1 Est Hroom) as [_ Y]. contradiction. }
   clear Hdrain.
   change (c_pending c0) with (c_pending c). change (c_finished c0) with (c_finished c).
   change (c_flags c0) with (c_flags c).
@@ -200,6 +205,8 @@ Proof.
     set (c4 := if c_flush (set_finished c3 (c_flush c3 =? TF_FINISH)) =? TF_FULL
                then set_dsize (set_finished c3 (c_flush c3 =? TF_FINISH)) 0
                else set_finished c3 (c_flush c3 =? TF_FINISH)).
+    assert (Hpend4 : c_pending c4 = c_pending c3).
+    { unfold c4. destruct (_ =? TF_FULL); reflexivity. }
     assert (Hfin4 : c_finished c4 = (f =? TF_FINISH)).
     { unfold c4. destruct (_ =? TF_FULL); cbn [set_dsize set_finished mkc c_finished]; rewrite Hfl3; reflexivity. }
     assert (Hc4 : c_total_bytes c4 = 0 /\ c_la_size c4 = 0).
@@ -218,7 +225,7 @@ Proof.
     { intros Hroom. rewrite (written_ofs out_len cb5 Hok5) in Hroom.
       destruct (c_pending c5) as [|x l]; [reflexivity|]. rewrite Hfull5 in Hroom by discriminate. lia. }
     eexists. split; [reflexivity|]. cbn [r_status r_out r_comp r_in].
-    split; [|split; [|split]].
+    split; [|split; [|split; [|split]]].
     + intros Est Hroom. pose proof (Hroom5 Hroom) as Hp5.
       split; [cbn [set_prev mkc c_pending]; exact Hp5|]. right.
       split; [lia|].
@@ -237,6 +244,22 @@ Proof.
       pose proof (ofs_le2 out_len cb1 Hok1) as Hofs1.
       specialize (Hstrict3 Hne). cbn [ofs_of] in Hmono5, Hstrict3, Hmono3.
       destruct (N.ltb_spec (ofs_of cb1) out_len) as [Hlt|Hge]; [specialize (Hstrict3 Hlt); lia|lia].
+    + (* everything of the flushed block has been delivered, and it ends with the marker *)
+      intros _ Hroom _ Hsf. pose proof (Hroom5 Hroom) as Hp5.
+      assert (Hne : gblock_bytes c2 f <> []).
+      { unfold gblock_bytes, sync_marker, stored_block. destruct Hsf as [X|X]; rewrite X; cbn [N.eqb orb];
+          intros Y; apply app_eq_nil in Y; destruct Y as [_ Y]; apply app_eq_nil in Y; destruct Y as [_ Y2]; discriminate Y2. }
+      destruct cb1 as [len1 w1 ofs1|]; [|cbn in Hok1; contradiction].
+      destruct (flush_output_vout wb Hwb _ _ _ _ _ _ _ _ Hpa Hne Efo) as (Ev3 & _ & _ & _).
+      destruct (fob_vout _ _ _ _ _ _ _ Ef5) as (Ev5 & _ & _ & _).
+      rewrite Hp5, app_nil_r in Ev5.
+      assert (Hp4 : c_pending c4 = c_pending c3) by exact Hpend4.
+      rewrite Hp4 in Ev5. rewrite Ev5, Ev3.
+      exists (cb_written (CBuf len1 w1 ofs1) ++
+              (if hasf (c_flags c2) FLAG_ZLIB && (c_block_index c2 =? 0) then hdr (c_flags c2) (c_wbits c2) else []) ++
+              (if (0 <? c_total_bytes c2) || (f =? TF_FINISH)
+               then stored_block (f =? TF_FINISH) (dict_range (c_dict c2) (N.land (c_cbdp c2) DMASK) (c_total_bytes c2)) else [])).
+      unfold gblock_bytes. destruct Hsf as [X|X]; rewrite X; cbn [N.eqb orb]; rewrite <- !app_assoc; reflexivity.
   - cbn [bind].
     destruct (flush_output_buffer c2 cb1) as [[st c3] cb3] eqn:Ef3.
     pose proof (fob_PF out_len _ _ _ _ _ Hok1 Ef3) as ([Hok3 Hfull3] & Hmono3 & _).
@@ -248,7 +271,7 @@ Proof.
       2:{ rewrite Hfull1 in Hmono3 by discriminate. lia. }
       split; [reflexivity|]. destruct (Hend eq_refl) as [HE _]. lia. }
     eexists. split; [reflexivity|]. cbn [r_status r_out r_comp r_in].
-    split; [|split; [|split]].
+    split; [|split; [|split; [|split]]].
     + intros Est Hroom. destruct (Hroom3 Hroom) as (Hp3 & Hp1 & Hil).
       split; [cbn [set_prev mkc c_pending]; exact Hp3|]. right.
       destruct (Hend Hp1) as [HE Hz].
@@ -271,6 +294,12 @@ Proof.
         rewrite (Hz Hnn), Hil in Efin.
         replace (f =? TF_NONE) with false in Efin by (symmetry; apply N.eqb_neq; exact Hnn).
         cbn in Efin. discriminate Efin.
+    + intros _ Hroom _ Hsf. exfalso. destruct (Hroom3 Hroom) as (Hp3 & Hp1 & Hil).
+      assert (Hnn : f <> TF_NONE) by (destruct Hsf as [X|X]; rewrite X; discriminate).
+      destruct (Hend Hp1) as [HE Hz].
+      rewrite (Hz Hnn), Hp1, Hil in Efin.
+      replace (f =? TF_NONE) with false in Efin by (symmetry; apply N.eqb_neq; exact Hnn).
+      cbn in Efin. discriminate Efin.
 Qed.
 
 Notation DGI' := (DGI data flags wb).
@@ -286,7 +315,7 @@ Lemma deflate_turn_step R n E f s s' :
 Proof.
   intros Hf [HG Hin] HDz Hsmall. unfold deflate_turn.
   destruct (legal_mz_td f Hf) as [Hlf Htd]. rewrite Htd in *.
-  destruct (compress_room2 _ _ _ (ds_in s) E (ds_room s) f Hsmall Hlf HG HDz Hin) as (r & Er & Hroom & _ & _ & _).
+  destruct (compress_room2 _ _ _ (ds_in s) E (ds_room s) f Hsmall Hlf HG HDz Hin) as (r & Er & Hroom & _ & _ & _ & _).
   rewrite Er. cbv zeta.
   destruct (r_status r) eqn:Est; try discriminate.
   destruct (ds_room s - N.of_nat (length (r_out r)) =? 0) eqn:Eroom; [discriminate|].
@@ -311,7 +340,7 @@ Lemma deflate_turn_ret R n E f s :
 Proof.
   intros Hf [HG Hin] HDz Hsmall. unfold deflate_turn.
   destruct (legal_mz_td f Hf) as [Hlf Htd]. rewrite Htd in *.
-  destruct (compress_room2 _ _ _ (ds_in s) E (ds_room s) f Hsmall Hlf HG HDz Hin) as (r & Er & _ & _ & _ & _).
+  destruct (compress_room2 _ _ _ (ds_in s) E (ds_room s) f Hsmall Hlf HG HDz Hin) as (r & Er & _ & _ & _ & _ & _).
   rewrite Er. cbv zeta.
   destruct (r_status r); try exact I.
   destruct (_ =? 0); [exact I|].
@@ -410,7 +439,7 @@ Proof.
   intros [HG Hin] HDz Hsmall HJ. unfold deflate_turn.
   change (tdflush_of_mz 4) with 4.
   assert (Hlf : legal_flush 4) by (unfold legal_flush; cbn; tauto).
-  destruct (compress_room2 _ _ _ (ds_in s) E (ds_room s) 4 Hsmall Hlf HG HDz Hin) as (r & Er & _ & Hst & _ & _).
+  destruct (compress_room2 _ _ _ (ds_in s) E (ds_room s) 4 Hsmall Hlf HG HDz Hin) as (r & Er & _ & Hst & _ & _ & _).
   pose proof (compress_counts _ _ _ _ _ Er) as [_ Hrout].
   rewrite Er. cbv zeta.
   specialize (Hst (fun _ => eq_refl)).
@@ -486,7 +515,7 @@ Lemma deflate_turn_progress R n E f s :
 Proof.
   intros Hf [HG Hin] HDz Hsmall Hroom0 Hpg. unfold deflate_turn.
   destruct (legal_mz_td f Hf) as [Hlf Htd]. rewrite Htd in *.
-  destruct (compress_room2 _ _ _ (ds_in s) E (ds_room s) f Hsmall Hlf HG HDz Hin) as (r & Er & _ & _ & _ & H5).
+  destruct (compress_room2 _ _ _ (ds_in s) E (ds_room s) f Hsmall Hlf HG HDz Hin) as (r & Er & _ & _ & _ & H5 & _).
   rewrite Er. cbv zeta.
   destruct (r_status r) eqn:Est; try (cbn; discriminate).
   assert (HP : 0 < ds_tin s + r_in r \/ rev_append (r_out r) (ds_rout s) <> []).
